@@ -224,6 +224,24 @@ def write_replay(prop, clause: Clause, failure: Failure):
   return os.path.relpath(path, VERIF)
 
 
+def rerun_any_replay(run_fn, select=None):
+  """Replay for a deductive clause whose native counterpart is a bounded clause over real inputs: re-evaluates that clause on the real code
+  and reports the first failing case (optionally only cases whose name contains `select`)."""
+  cache = {}
+
+  def replay(w):
+    w = w if isinstance(w, dict) else {}
+    ctx = Ctx(tier=w.get('_tier', 'quick'), seed=int(w.get('_seed', 0)), prop=w.get('_prop', ''))
+    ck = (ctx.tier, ctx.seed)
+    if ck not in cache:
+      cache[ck] = run_fn(ctx)
+    hits = [f for f in cache[ck].failures if select is None or select in f.obligation]
+    if hits:
+      return True, f'the bounded counterpart fails on the real code: {hits[0].obligation}: {hits[0].detail[:500]}'
+    return False, 'the bounded counterpart holds on its enumerated inputs'
+  return replay
+
+
 def rerun_replay(run_fn):
   """Replay for bounded clauses: re-evaluates the clause (real functions on the same enumerated inputs) and reports
   whether the recorded obligation fails again.  The witness carries _key/_tier/_seed (added by the cli)."""
